@@ -264,6 +264,7 @@ PrimClauses(e) ==
                    kinds == IF orderOnly THEN ReversedKinds(app, W.bytes, W.mask) ELSE {}
                    odev == IF kinds = {KListElem} THEN "ListLE_ElementsBE" ELSE IF kinds = {KObjCount} THEN "ObjListLE_CountBE" ELSE "none"
                IN (IF P("C03") /\ orderOnly THEN {<<"C03.primitive-byte-order", odev>>} ELSE {})
+                  \cup (IF P("C02") /\ ~orderOnly THEN {<<"C02.primitive-bytes", "none">>} ELSE {})
                   \cup (IF P("C13") /\ fn \in FixedFns /\ ~orderOnly THEN {<<"C13.write", "none">>} ELSE {})
                   \cup (IF P("C18") /\ e.res = "ok" /\ "pw" \in DOMAIN a /\ Len(app) >= a.pw
                             /\ ValCap(Ord(EndOf(a), Take(app, a.pw))) # ValCap(Ord(EndOf(a), Take(W.bytes, a.pw)))
@@ -274,6 +275,8 @@ PrimClauses(e) ==
        IN (IF P("C13") /\ fn \in FixedFns /\ R.ok /\ ~agree
            THEN {<<"C13.read", IF PadIsHigh(a) THEN "Trim_RuneCutset" ELSE "none">>} ELSE {})
           \cup (IF P("C03") /\ fn \in IntOnlyFns /\ R.ok /\ ~agree THEN {<<"C03.primitive-read", "none">>} ELSE {})
+          \cup (IF P("C02") /\ R.ok /\ e.res \in {"ok", "err"} /\ ~agree THEN {<<"C02.primitive-read", "none">>} ELSE {})
+          \cup (IF P("C07") /\ R.ok /\ e.res = "ok" /\ ~(IsSuffixOf(e.post, pre) /\ used = R.used) THEN {<<"C07.primitive-consume", "none">>} ELSE {})
           \cup (IF P("C18") /\ R.ok /\ e.tag = "read-back" /\ (e.res = "err" \/ (e.res = "ok" /\ Len(e.ret) # Len(R.ret)))
                  THEN {<<"C18.read-back", "none">>} ELSE {})
           \cup (IF P("C11") /\ ~R.ok /\ R.why = "short" /\ e.res = "ok" THEN {<<"C11.primitive-short-read", "none">>} ELSE {})
